@@ -329,5 +329,25 @@ check("C05",
                 "after every step against recorded fingerprints",
       engine="explore", design="3/C05", deadline={"quick": 200, "thorough": 1500})
 
+check("C17",
+      passes=[dict(name="C17", src=["harness/C17.cpp"] + ENV, shared=ZOO, deps=ZOO_DEPS, variant="fast", shards={"quick": 16, "thorough": 16})],
+      rule="programs of the printable fragment from a typed catalogue: 75 expression forms x operand pool {literal, id-expression, "
+           "compound}; every statement tree of depth <= 2 (quick, 168) / <= 3 (thorough, 86190) over 18 statement forms inside a "
+           "function body; 8 declaration kinds x 12 type shapes x 3 initializers; class/union/enum/namespace with 0..3 members; all "
+           "6^3 three-declaration scopes. Each program is built under EVERY history of the set {plain; ascending / descending / "
+           "alternating heap addresses; 1000 unrelated nodes first; independent sub-terms built in reverse; reverse+descending+noise; "
+           "unrelated factory calls -- including requests for the very names, labels, literals and types the program uses -- injected "
+           "before construction step k for EVERY k; thorough: before every PAIR of steps}. Oracle: printed bytes identical across all "
+           "histories; three further fresh printers on the same graph reproduce them; fingerprint of every node the program built "
+           "unchanged by printing; with print_locations on the text is the off-text with only the F<file>:<line>[:<col>] tokens of "
+           "located nodes inserted (each shows, none invented), off => none. distinct_nontrivial = programs printed to completion.",
+      text="Every program of the bounded fragment x every construction history of the deviation-bounded set is built on the "
+           "real factories and printed by the real printer; outputs are compared byte for byte.",
+      note="Programs the printer refuses with std::logic_error under the plain history are counted, not compared (C18 decides "
+           "them); they must be refused under every history as well.",
+      technique="exhaustive enumeration of programs up to a depth bound x environment deviations (address orders, injected "
+                "unrelated operations at every step, reversed sub-term order) on the implementation, differential oracle",
+      engine="explore", design="3/C17", deadline={"quick": 200, "thorough": 1500})
+
 # Properties not claimed (with the reason that goes to MANIFEST.not_applicable).
 NOT_CLAIMED = {}
